@@ -561,25 +561,25 @@ def targetWd (a b : FMap Entry) (fA : FMap WFile) (obs : Obs) (p : Path) : Optio
   | none => none
   | some y => if a.get p = some y then fA.get p else (obs.get p).map (fileOf y)
 
-theorem applyChanges_one {obs : Obs} {s s' : WT} {c : Change} (h : applyChange cur obs s c = .ok s') :
-    applyChanges cur obs s [c] = (s', none) := by
+theorem applyChanges_one {fl : Flags} {obs : Obs} {s s' : WT} {c : Change} (h : applyChange fl obs s c = .ok s') :
+    applyChanges fl obs s [c] = (s', none) := by
   simp [applyChanges, h]
 
-theorem applyChanges_two {obs : Obs} {s s' s'' : WT} {c d : Change} (h : applyChange cur obs s c = .ok s')
-    (h' : applyChange cur obs s' d = .ok s'') :
-    applyChanges cur obs s [c, d] = (s'', none) := by
+theorem applyChanges_two {fl : Flags} {obs : Obs} {s s' s'' : WT} {c d : Change} (h : applyChange fl obs s c = .ok s')
+    (h' : applyChange fl obs s' d = .ok s'') :
+    applyChanges fl obs s [c, d] = (s'', none) := by
   simp [applyChanges, h, h']
 
-theorem applyChanges_append (obs : Obs) (s : WT) (c1 c2 : List Change) :
-    applyChanges cur obs s (c1 ++ c2) =
-      match applyChanges cur obs s c1 with
-      | (s', none) => applyChanges cur obs s' c2
+theorem applyChanges_append (fl : Flags) (obs : Obs) (s : WT) (c1 c2 : List Change) :
+    applyChanges fl obs s (c1 ++ c2) =
+      match applyChanges fl obs s c1 with
+      | (s', none) => applyChanges fl obs s' c2
       | (s', some e) => (s', some e) := by
   induction c1 generalizing s with
   | nil => simp [applyChanges]
   | cons c r ih =>
     simp only [List.cons_append, applyChanges]
-    cases h : applyChange cur obs s c with
+    cases h : applyChange fl obs s c with
     | ok s1 => simp only [ih]
     | error e => simp
 
@@ -1109,5 +1109,439 @@ theorem applyAdds {a b : FMap Entry} {fA : FMap WFile} {obs : Obs} (hwfb : TreeW
     refine ⟨s2, ?_, t2⟩
     rw [List.flatMap_cons, applyChanges_append, h1]
     exact h2
+
+/-! ## reset --hard from an arbitrary state -/
+
+/-- No path of the list lies below another one. -/
+def Flat (K : List Path) : Prop := K.all (fun p => K.all (fun q => !isAncestor p q)) = true
+
+instance (K : List Path) : Decidable (Flat K) := by unfold Flat; infer_instance
+
+theorem Flat.apply {K : List Path} (h : Flat K) {p q : Path} (hp : p ∈ K) (hq : q ∈ K) :
+    isAncestor p q = false := by
+  have := (List.all_eq_true.mp ((List.all_eq_true.mp h) p hp)) q hq
+  simpa using this
+
+theorem flat_view {wd : FMap WFile} {K : List Path} {p : Path}
+    (hkeys : ∀ k ∈ wd.keys, k ∈ K) (hK : Flat K) (hp : p ∈ K) :
+    hasFileAncestor wd p = false ∧ hasDescendant wd p = false := by
+  constructor
+  · unfold hasFileAncestor
+    rw [List.any_eq_false]
+    intro k hk
+    simp [hK.apply (hkeys k hk) hp]
+  · unfold hasDescendant
+    rw [List.any_eq_false]
+    intro k hk
+    simp [hK.apply hp (hkeys k hk)]
+
+/-- `_transition_to_file` at a path with nothing above and nothing below it, whatever is there now:
+afterwards the path holds a file with the wanted entry and the index records exactly that file. -/
+theorem transitionToFile_free {obs : Obs} {s : WT} {p : Path} {e : Entry} {o : StatKey × LinkRes}
+    (hv : validPath p = true) (hanc : hasFileAncestor s.wd p = false) (hdesc : hasDescendant s.wd p = false)
+    (ho : obs.get p = some o) :
+    ∃ s' f', transitionToFile obs s p e = .ok s' ∧ s'.wd.get p = some f' ∧ f'.entry = e ∧
+      s'.index.get p = some f'.ientry ∧
+      (∀ q, q ≠ p → s'.wd.get q = s.wd.get q ∧ s'.index.get q = s.index.get q) ∧
+      (∀ k ∈ s'.wd.keys, k = p ∨ k ∈ s.wd.keys) := by
+  have hlink := linkAnc_of_anc hanc
+  have wr : ∃ s' f', writeFile obs s p e = .ok s' ∧ s'.wd.get p = some f' ∧ f'.entry = e ∧
+      s'.index.get p = some f'.ientry ∧
+      (∀ q, q ≠ p → s'.wd.get q = s.wd.get q ∧ s'.index.get q = s.index.get q) ∧
+      (∀ k ∈ s'.wd.keys, k = p ∨ k ∈ s.wd.keys) := by
+    refine ⟨⟨s.wd.put p ⟨e.kind, e.cid, o.1, o.2⟩, s.index.put p ⟨e.kind, e.cid, o.1⟩⟩, ⟨e.kind, e.cid, o.1, o.2⟩,
+      by simp [writeFile, ho], FMap.get_put_same _ _ _, rfl, FMap.get_put_same _ _ _,
+      fun q hq => ⟨FMap.get_put_ne _ _ hq, FMap.get_put_ne _ _ hq⟩, fun k hk => FMap.mem_keys_put hk⟩
+  unfold transitionToFile
+  simp only [hv, hlink, Bool.not_true, Bool.false_eq_true, if_false]
+  cases hg : s.wd.get p with
+  | none =>
+    have hview : lstatView s.wd p = .enoent := by
+      rw [lstatView_noAnc_none hanc hg, hdesc]; rfl
+    rw [hview]
+    exact wr
+  | some f =>
+    rw [lstatView_noAnc_some hanc hg]
+    simp only
+    by_cases hc : (isLink f.kind == isLink e.kind && (if isLink f.kind = true then f.cid == e.cid else fileMatches f e)) = true
+    · rw [if_pos hc]
+      have hfe : f.entry = e ∧ f.ientry = ⟨f.kind, e.cid, f.stat⟩ := by
+        obtain ⟨fk, fc, fs, fr⟩ := f
+        obtain ⟨ek, ec⟩ := e
+        simp only [Bool.and_eq_true, beq_iff_eq] at hc
+        obtain ⟨hl, hm⟩ := hc
+        simp only [WFile.entry, WFile.ientry, Entry.mk.injEq, IEntry.mk.injEq, true_and, and_true]
+        by_cases hlk : isLink fk = true
+        · simp only [hlk, if_true, beq_iff_eq] at hm
+          have h1 : fk = .symlink := by simpa [isLink] using hlk
+          have h2 : ek = .symlink := by rw [hlk] at hl; simpa [isLink] using hl.symm
+          exact ⟨⟨h1.trans h2.symm, hm⟩, hm⟩
+        · have hm' : ((fk == Kind.executable) == (ek == Kind.executable)) = true ∧ fc = ec := by
+            simpa [hlk, fileMatches] using hm
+          have h1 : fk ≠ .symlink := by simpa [isLink] using hlk
+          have h2 : ek ≠ .symlink := by
+            intro e'; rw [e'] at hl; simp [isLink] at hl; exact h1 hl
+          refine ⟨⟨?_, hm'.2⟩, hm'.2⟩
+          have := hm'.1
+          cases fk <;> cases ek <;> simp_all
+      refine ⟨⟨s.wd, s.index.put p ⟨f.kind, e.cid, f.stat⟩⟩, f, rfl, hg, hfe.1, ?_,
+        fun q hq => ⟨rfl, FMap.get_put_ne _ _ hq⟩, fun k hk => Or.inr hk⟩
+      rw [hfe.2]; exact FMap.get_put_same _ _ _
+    · rw [if_neg hc]
+      exact wr
+
+/-- `_transition_to_absent` at a path with nothing above it. -/
+theorem transitionToAbsent_free {fl : Flags} {s : WT} {p : Path}
+    (hv : validPath p = true) (hanc : hasFileAncestor s.wd p = false) (hdesc : hasDescendant s.wd p = false) :
+    ∃ s', transitionToAbsent fl s p = .ok s' ∧ s'.wd.get p = none ∧
+      (s'.index.get p = none ∨ (fl.absentDropsIndex = false ∧ s.wd.get p = none ∧ s'.index.get p = s.index.get p)) ∧
+      (∀ q, q ≠ p → s'.wd.get q = s.wd.get q ∧ s'.index.get q = s.index.get q) ∧
+      (∀ k ∈ s'.wd.keys, k ∈ s.wd.keys) := by
+  unfold transitionToAbsent
+  simp only [hv, Bool.not_true, Bool.false_eq_true, if_false]
+  cases hg : s.wd.get p with
+  | none =>
+    have hview : lstatView s.wd p = .enoent := by
+      rw [lstatView_noAnc_none hanc hg, hdesc]; rfl
+    rw [hview]
+    simp only
+    by_cases hf : fl.absentDropsIndex = true
+    · rw [if_pos hf]
+      exact ⟨_, rfl, hg, Or.inl (FMap.get_erase_same _ _), fun q hq => ⟨rfl, FMap.get_erase_ne _ hq⟩, fun k hk => hk⟩
+    · rw [if_neg hf]
+      have hf' : fl.absentDropsIndex = false := by simpa using hf
+      exact ⟨s, rfl, hg, Or.inr ⟨hf', trivial, rfl⟩, fun q _ => ⟨rfl, rfl⟩, fun k hk => hk⟩
+  | some f =>
+    rw [lstatView_noAnc_some hanc hg]
+    exact ⟨_, rfl, FMap.get_erase_same _ _, Or.inl (FMap.get_erase_same _ _),
+      fun q hq => ⟨FMap.get_erase_ne _ hq, FMap.get_erase_ne _ hq⟩, fun k hk => FMap.mem_keys_erase hk⟩
+
+/-- Processing independent steps at the paths of a duplicate-free list. -/
+theorem fold_paths (fl : Flags) (obs : Obs) (steps : Path → List Change) (Inv : WT → Prop) (P : Path → Prop)
+    (R Q : Path → Option WFile → Option IEntry → Prop)
+    (hstep : ∀ s p, Inv s → P p → R p (s.wd.get p) (s.index.get p) →
+      ∃ s', applyChanges fl obs s (steps p) = (s', none) ∧ Inv s' ∧ Q p (s'.wd.get p) (s'.index.get p) ∧
+        ∀ q, q ≠ p → s'.wd.get q = s.wd.get q ∧ s'.index.get q = s.index.get q)
+    (L : List Path) (hL : L.Nodup) (hP : ∀ p ∈ L, P p) (s : WT) (hinv : Inv s)
+    (hR : ∀ p ∈ L, R p (s.wd.get p) (s.index.get p)) :
+    ∃ s', applyChanges fl obs s (L.flatMap steps) = (s', none) ∧ Inv s' ∧
+      (∀ p ∈ L, Q p (s'.wd.get p) (s'.index.get p)) ∧
+      (∀ q, q ∉ L → s'.wd.get q = s.wd.get q ∧ s'.index.get q = s.index.get q) := by
+  induction L generalizing s with
+  | nil => exact ⟨s, rfl, hinv, fun _ h => absurd h List.not_mem_nil, fun _ _ => ⟨rfl, rfl⟩⟩
+  | cons p r ih =>
+    rw [List.nodup_cons] at hL
+    obtain ⟨s1, h1, i1, q1, o1⟩ := hstep s p hinv (hP p List.mem_cons_self) (hR p List.mem_cons_self)
+    have hR1 : ∀ q ∈ r, R q (s1.wd.get q) (s1.index.get q) := by
+      intro q hq
+      have hqp : q ≠ p := fun e => hL.1 (e ▸ hq)
+      rw [(o1 q hqp).1, (o1 q hqp).2]
+      exact hR q (List.mem_cons_of_mem _ hq)
+    obtain ⟨s2, h2, i2, q2, o2⟩ := ih hL.2 (fun q hq => hP q (List.mem_cons_of_mem _ hq)) s1 i1 hR1
+    refine ⟨s2, ?_, i2, ?_, ?_⟩
+    · rw [List.flatMap_cons, applyChanges_append, h1]; exact h2
+    · intro q hq
+      rcases List.mem_cons.mp hq with e | e
+      · subst e
+        rw [(o2 q hL.1).1, (o2 q hL.1).2]
+        exact q1
+      · exact q2 q e
+    · intro q hq
+      have hqp : q ≠ p := fun e => hq (e ▸ List.mem_cons_self)
+      have hqr : q ∉ r := fun e => hq (List.mem_cons_of_mem _ e)
+      rw [(o2 q hqr).1, (o2 q hqr).2]
+      exact o1 q hqp
+
+
+theorem changesAtAll_mem {a b : FMap Entry} {p : Path} {ch : Change} (h : ch ∈ changesAtAll a b p) :
+    ch.path = p := by
+  unfold changesAtAll at h
+  cases ha : a.get p <;> cases hb : b.get p <;> simp only [ha, hb] at h
+  · cases h
+  · simp only [List.mem_singleton] at h; subst h; rfl
+  · simp only [List.mem_singleton] at h; subst h; rfl
+  · split at h
+    · simp only [List.mem_cons, List.not_mem_nil, or_false] at h
+      rcases h with h | h <;> subst h <;> rfl
+    · simp only [List.mem_singleton] at h; subst h; rfl
+
+theorem allChanges_mem {a b : FMap Entry} {ch : Change} (h : ch ∈ allChanges a b) :
+    ch.path ∈ a.keys ++ b.keys := by
+  unfold allChanges at h
+  rw [List.mem_flatMap] at h
+  obtain ⟨p, hp, hch⟩ := h
+  rw [changesAtAll_mem hch]
+  exact (mem_changedPathOrder a b p).mp hp
+
+theorem preCheckDirs_flat {wd : FMap WFile} {a b : FMap Entry} {K : List Path} (hK : Flat K)
+    (hsub : ∀ p ∈ a.keys ++ b.keys, p ∈ K) : preCheckDirs wd (allChanges a b) = .ok () := by
+  unfold preCheckDirs
+  apply foldl_ok
+  intro ch hch
+  cases ch with
+  | add p e => rfl
+  | modify p x y => rfl
+  | delete p old =>
+    have hp : p ∈ K := hsub p (allChanges_mem hch)
+    have hany : (allChanges a b).any (writesBelow p) = false := by
+      rw [List.any_eq_false]
+      intro c hc
+      have hq : c.path ∈ K := hsub _ (allChanges_mem hc)
+      cases c with
+      | delete q o => simp [writesBelow]
+      | add q e =>
+        have hq' : q ∈ K := hq
+        simp [writesBelow, hK.apply hp hq']
+      | modify q x y =>
+        have hq' : q ∈ K := hq
+        simp [writesBelow, hK.apply hp hq']
+    simp only [hany]
+    rfl
+
+/-- The hypothesis the code as it is forces on `reset --hard` (void once `_transition_to_absent` drops
+the index entry of a file that is already gone): no path that the index has and the target lacks is
+missing from the work tree. -/
+def NoGoneEntries (fl : Flags) (w : World) (t : FMap Entry) : Prop :=
+  fl.absentDropsIndex = true ∨
+    w.index.keys.all (fun p => (w.wd.get p).isSome || t.has p) = true
+
+instance (fl : Flags) (w : World) (t : FMap Entry) : Decidable (NoGoneEntries fl w t) := by
+  unfold NoGoneEntries; infer_instance
+
+/-- What `reset --hard` leaves at every path, in terms of the look-ups. -/
+structure ResetOutcome (w : World) (t : FMap Entry) (wd' : FMap WFile) (index' : FMap IEntry) : Prop where
+  tracked : ∀ p y, t.get p = some y → ∃ f, wd'.get p = some f ∧ f.entry = y ∧ index'.get p = some f.ientry
+  gone : ∀ p, t.get p = none → (w.index.get p).isSome = true → wd'.get p = none ∧ index'.get p = none
+  other : ∀ p, t.get p = none → w.index.get p = none → wd'.get p = w.wd.get p ∧ index'.get p = none
+  keys : ∀ k ∈ wd'.keys, k ∈ w.index.keys ++ w.wd.keys ++ t.keys
+
+/-- `reset --hard` from ANY state whose paths do not lie below one another: index `I`, work tree `W`
+and target `T` may differ in every way at every path. -/
+theorem resetHard_outcome (fl : Flags) (hdf : fl.deletesFirst = true) (w : World) (t : FMap Entry) (obs : Obs)
+    (hflat : Flat (w.index.keys ++ w.wd.keys ++ t.keys))
+    (hvi : w.index.keys.all validPath = true) (hvt : t.keys.all validPath = true)
+    (hobs : t.keys.all obs.has = true) (hgone : NoGoneEntries fl w t) :
+    ∃ w', resetHard fl w t obs = ⟨w', none⟩ ∧ w'.head = t ∧ ResetOutcome w t w'.wd w'.index := by
+  -- abbreviations
+  have hK := hflat
+  generalize hKdef : w.index.keys ++ w.wd.keys ++ t.keys = K at hK
+  have hIK : ∀ p ∈ w.index.keys, p ∈ K := by
+    intro p hp; rw [← hKdef]; exact List.mem_append_left _ (List.mem_append_left _ hp)
+  have hWK : ∀ p ∈ w.wd.keys, p ∈ K := by
+    intro p hp; rw [← hKdef]; exact List.mem_append_left _ (List.mem_append_right _ hp)
+  have hTK : ∀ p ∈ t.keys, p ∈ K := by
+    intro p hp; rw [← hKdef]; exact List.mem_append_right _ hp
+  have haget : ∀ p, (treeOf w.index).get p = (w.index.get p).map IEntry.entry := by
+    intro p; simp only [treeOf]; exact FMap.get_mapVal _ (fun _ (v : IEntry) => v.entry) p
+  have hakeys : (treeOf w.index).keys = w.index.keys := by
+    simp only [treeOf]; exact FMap.keys_mapVal _ (fun _ (v : IEntry) => v.entry)
+  have hsubK : ∀ p ∈ (treeOf w.index).keys ++ t.keys, p ∈ K := by
+    intro p hp
+    rcases List.mem_append.mp hp with h | h
+    · rw [hakeys] at h; exact hIK p h
+    · exact hTK p h
+  have hpd := preCheckDirs_flat (wd := w.wd) hK hsubK
+  have hvalid_a : ∀ p x, (treeOf w.index).get p = some x → validPath p = true := by
+    intro p x h
+    rw [haget] at h
+    cases hi : w.index.get p with
+    | none => rw [hi] at h; cases h
+    | some i => exact (List.all_eq_true.mp hvi) p (FMap.mem_keys_of_get hi)
+  have hvalid_t : ∀ p y, t.get p = some y → validPath p = true :=
+    fun p y h => (List.all_eq_true.mp hvt) p (FMap.mem_keys_of_get h)
+  have hobs' : ∀ p y, t.get p = some y → ∃ o, obs.get p = some o :=
+    fun p y h => Option.isSome_iff_exists.mp ((List.all_eq_true.mp hobs) p (FMap.mem_keys_of_get h))
+  -- the order of the changes
+  have horder : applyOrder fl (allChanges (treeOf w.index) t) =
+      (changedPathOrder (treeOf w.index) t).flatMap (fun p => (changesAtAll (treeOf w.index) t p).filter Change.isDelete) ++
+      (changedPathOrder (treeOf w.index) t).flatMap (fun p => (changesAtAll (treeOf w.index) t p).filter (fun c => !c.isDelete)) := by
+    simp only [applyOrder, hdf, if_true, allChanges, List.filter_flatMap]
+  have hPK : ∀ p ∈ changedPathOrder (treeOf w.index) t, p ∈ K :=
+    fun p hp => hsubK p ((mem_changedPathOrder _ _ p).mp hp)
+  let Inv : WT → Prop := fun s => ∀ k ∈ s.wd.keys, k ∈ K
+  -- first phase
+  let Q1 : Path → Option WFile → Option IEntry → Prop := fun p a' b' =>
+    match (treeOf w.index).get p, t.get p with
+    | some _, none => a' = none ∧ b' = none
+    | some x, some y => if (isLink x.kind != isLink y.kind) = true then a' = none else a' = w.wd.get p ∧ b' = w.index.get p
+    | none, _ => a' = w.wd.get p ∧ b' = w.index.get p
+  obtain ⟨s1, happ1, hinv1, hq1, hout1⟩ := fold_paths fl obs
+    (fun p => (changesAtAll (treeOf w.index) t p).filter Change.isDelete) Inv (fun p => p ∈ K)
+    (fun p a' b' => a' = w.wd.get p ∧ b' = w.index.get p) Q1
+    (by
+      intro s p hinv hpK hR
+      obtain ⟨hwd, hidx⟩ := hR
+      have hfree := flat_view hinv hK hpK
+      have del1 : ∀ x, (treeOf w.index).get p = some x →
+          ∃ s', applyChanges fl obs s [.delete p x] = (s', none) ∧ Inv s' ∧ s'.wd.get p = none ∧
+            (s'.index.get p = none ∨ (fl.absentDropsIndex = false ∧ w.wd.get p = none)) ∧
+            ∀ q, q ≠ p → s'.wd.get q = s.wd.get q ∧ s'.index.get q = s.index.get q := by
+        intro x hx
+        obtain ⟨s', h1, h2, h3, h4, h5⟩ := @transitionToAbsent_free fl s p (hvalid_a p x hx) hfree.1 hfree.2
+        refine ⟨s', applyChanges_one (c := .delete p x) h1, fun k hk => hinv k (h5 k hk), h2, ?_, h4⟩
+        rcases h3 with h | ⟨ha, hb, _⟩
+        · exact Or.inl h
+        · exact Or.inr ⟨ha, by rw [← hwd]; exact hb⟩
+      simp only [Q1, changesAtAll]
+      cases ha : (treeOf w.index).get p with
+      | none =>
+        cases hb : t.get p <;>
+          exact ⟨s, by simp [applyChanges, List.filter_cons], hinv, ⟨hwd, hidx⟩, fun q _ => ⟨rfl, rfl⟩⟩
+      | some x =>
+        cases hb : t.get p with
+        | none =>
+          obtain ⟨s', h1, h2, h3, h4, h5⟩ := del1 x ha
+          refine ⟨s', by simpa [List.filter_cons] using h1, h2, ⟨h3, ?_⟩, h5⟩
+          rcases h4 with h | ⟨hf, hw⟩
+          · exact h
+          · -- excluded by the hypothesis: the index has `p`, the target lacks it, the file is gone
+            exfalso
+            rcases hgone with hg | hg
+            · rw [hg] at hf; cases hf
+            · have hi : ∃ i, w.index.get p = some i := by
+                rw [haget] at ha
+                cases hi : w.index.get p with
+                | none => rw [hi] at ha; cases ha
+                | some i => exact ⟨i, rfl⟩
+              obtain ⟨i, hi⟩ := hi
+              have := (List.all_eq_true.mp hg) p (FMap.mem_keys_of_get hi)
+              simp [hw, FMap.has, hb] at this
+        | some y =>
+          by_cases hlk : (isLink x.kind != isLink y.kind) = true
+          · obtain ⟨s', h1, h2, h3, _, h5⟩ := del1 x ha
+            refine ⟨s', by simpa [hlk, List.filter_cons] using h1, h2, by simp [hlk, h3], h5⟩
+          · exact ⟨s, by simp [hlk, applyChanges, List.filter_cons], hinv, by simp [hlk, hwd, hidx], fun q _ => ⟨rfl, rfl⟩⟩)
+    (changedPathOrder (treeOf w.index) t) (nodup_changedPathOrder _ _) hPK ⟨w.wd, w.index⟩
+    (fun k hk => hWK k hk) (fun p _ => ⟨rfl, rfl⟩)
+  -- second phase
+  let Q2 : Path → Option WFile → Option IEntry → Prop := fun p a' b' =>
+    match t.get p with
+    | some y => ∃ f, a' = some f ∧ f.entry = y ∧ b' = some f.ientry
+    | none =>
+      match (treeOf w.index).get p with
+      | some _ => a' = none ∧ b' = none
+      | none => a' = w.wd.get p ∧ b' = w.index.get p
+  obtain ⟨s2, happ2, hinv2, hq2, hout2⟩ := fold_paths fl obs
+    (fun p => (changesAtAll (treeOf w.index) t p).filter (fun c => !c.isDelete)) Inv (fun p => p ∈ K) Q1 Q2
+    (by
+      intro s p hinv hpK hR
+      have hfree := flat_view hinv hK hpK
+      have wr : ∀ y c, t.get p = some y → (c = .add p y ∨ ∃ x, c = .modify p x y) →
+          ∃ s', applyChanges fl obs s [c] = (s', none) ∧ Inv s' ∧
+            (∃ f, s'.wd.get p = some f ∧ f.entry = y ∧ s'.index.get p = some f.ientry) ∧
+            ∀ q, q ≠ p → s'.wd.get q = s.wd.get q ∧ s'.index.get q = s.index.get q := by
+        intro y c hy hc
+        obtain ⟨o, ho⟩ := hobs' p y hy
+        obtain ⟨s', f', h1, h2, h3, h4, h5, h6⟩ := @transitionToFile_free obs s p y o (hvalid_t p y hy) hfree.1 hfree.2 ho
+        have hstep : applyChange fl obs s c = .ok s' := by
+          rcases hc with hc | ⟨x, hc⟩ <;> subst hc <;> exact h1
+        refine ⟨s', applyChanges_one hstep, ?_, ⟨f', h2, h3, h4⟩, h5⟩
+        intro k hk
+        rcases h6 k hk with e | e
+        · rw [e]; exact hpK
+        · exact hinv k e
+      simp only [Q1] at hR
+      simp only [Q2, changesAtAll]
+      cases hb : t.get p with
+      | none =>
+        cases ha : (treeOf w.index).get p with
+        | none =>
+          simp only [ha, hb] at hR
+          exact ⟨s, by simp [applyChanges], hinv, hR, fun q _ => ⟨rfl, rfl⟩⟩
+        | some x =>
+          simp only [ha, hb] at hR
+          exact ⟨s, by simp [applyChanges, List.filter_cons], hinv, hR, fun q _ => ⟨rfl, rfl⟩⟩
+      | some y =>
+        cases ha : (treeOf w.index).get p with
+        | none =>
+          obtain ⟨s', h1, h2, h3, h4⟩ := wr y (.add p y) hb (Or.inl rfl)
+          exact ⟨s', by simpa [List.filter_cons] using h1, h2, h3, h4⟩
+        | some x =>
+          by_cases hlk : (isLink x.kind != isLink y.kind) = true
+          · obtain ⟨s', h1, h2, h3, h4⟩ := wr y (.add p y) hb (Or.inl rfl)
+            exact ⟨s', by simpa [hlk, List.filter_cons] using h1, h2, h3, h4⟩
+          · obtain ⟨s', h1, h2, h3, h4⟩ := wr y (.modify p x y) hb (Or.inr ⟨x, rfl⟩)
+            exact ⟨s', by simpa [hlk, List.filter_cons] using h1, h2, h3, h4⟩)
+    (changedPathOrder (treeOf w.index) t) (nodup_changedPathOrder _ _) hPK s1 hinv1 hq1
+  -- every path
+  have hall : ∀ p, Q2 p (s2.wd.get p) (s2.index.get p) := by
+    intro p
+    by_cases hp : p ∈ changedPathOrder (treeOf w.index) t
+    · exact hq2 p hp
+    · have hpK : p ∉ (treeOf w.index).keys ++ t.keys := fun e => hp ((mem_changedPathOrder _ _ p).mpr e)
+      have han : (treeOf w.index).get p = none := by
+        cases h : (treeOf w.index).get p with
+        | none => rfl
+        | some x => exact absurd (List.mem_append_left _ (FMap.mem_keys_of_get h)) hpK
+      have hbn : t.get p = none := by
+        cases h : t.get p with
+        | none => rfl
+        | some x => exact absurd (List.mem_append_right _ (FMap.mem_keys_of_get h)) hpK
+      simp only [Q2, han, hbn]
+      rw [(hout2 p hp).1, (hout2 p hp).2, (hout1 p hp).1, (hout1 p hp).2]
+      exact ⟨rfl, rfl⟩
+  refine ⟨⟨t, s2.index, s2.wd⟩, ?_, rfl, ?_⟩
+  · unfold resetHard
+    have happ : applyChanges fl obs ⟨w.wd, w.index⟩ (applyOrder fl (allChanges (treeOf w.index) t)) = (s2, none) := by
+      rw [horder, applyChanges_append, happ1]
+      exact happ2
+    simp only [hpd, happ]
+  · refine ⟨?_, ?_, ?_, ?_⟩
+    · intro p y hy
+      have := hall p
+      simp only [Q2, hy] at this
+      exact this
+    · intro p hn hi
+      have := hall p
+      obtain ⟨i, hi'⟩ := Option.isSome_iff_exists.mp hi
+      have ha : (treeOf w.index).get p = some i.entry := by rw [haget, hi']; rfl
+      simp only [Q2, hn, ha] at this
+      exact this
+    · intro p hn hi
+      have := hall p
+      have ha : (treeOf w.index).get p = none := by rw [haget, hi]; rfl
+      simp only [Q2, hn, ha] at this
+      exact ⟨this.1, by rw [this.2, hi]⟩
+    · intro k hk
+      rw [hKdef]
+      exact hinv2 k hk
+
+
+/-- Where the index has an entry, the work tree has exactly the recorded file and HEAD the same entry;
+HEAD has nothing the index lacks: nothing is staged and nothing is unstaged (untracked files may
+exist). -/
+theorem tracked_synced_nothing_changed {w : World}
+    (h1 : ∀ p i, w.index.get p = some i → ∃ f, w.wd.get p = some f ∧ i = f.ientry ∧
+      w.head.get p = some f.entry ∧ hasFileAncestor w.wd p = false)
+    (h2 : ∀ p h, w.head.get p = some h → (w.index.get p).isSome = true) :
+    stagedAdd w.head w.index = [] ∧ stagedDel w.head w.index = [] ∧ stagedMod w.head w.index = [] ∧
+    unstagedOf cur w.wd w.index = .ok [] := by
+  refine ⟨?_, ?_, ?_, ?_⟩
+  · simp only [stagedAdd, List.filter_eq_nil_iff]
+    intro p hp
+    obtain ⟨i, hi⟩ := FMap.get_of_mem_keys hp
+    obtain ⟨f, _, _, hh, _⟩ := h1 p i hi
+    simp [FMap.has, hh]
+  · simp only [stagedDel, List.filter_eq_nil_iff]
+    intro p hp
+    obtain ⟨h, hh⟩ := FMap.get_of_mem_keys hp
+    obtain ⟨i, hi⟩ := Option.isSome_iff_exists.mp (h2 p h hh)
+    simp [FMap.has, hi]
+  · simp only [stagedMod, List.filter_eq_nil_iff, modifiedAt]
+    intro p hp
+    obtain ⟨h, hh⟩ := FMap.get_of_mem_keys hp
+    obtain ⟨i, hi⟩ := Option.isSome_iff_exists.mp (h2 p h hh)
+    obtain ⟨f, _, hif, hhf, _⟩ := h1 p i hi
+    rw [hhf, hi, hif]
+    have : ¬ (entryDiffers f.entry f.ientry = true) := by
+      rw [entryDiffers_iff]; simp [WFile.ientry, IEntry.entry, WFile.entry]
+    simpa using this
+  · rw [unstagedOf_cur]
+    congr 1
+    rw [List.filter_eq_nil_iff]
+    intro p hp
+    obtain ⟨i, hi⟩ := FMap.get_of_mem_keys hp
+    obtain ⟨f, hw, hif, _, hanc⟩ := h1 p i hi
+    simp [changedAt, hi, hif, entryChanged, lstatView_noAnc_some hanc hw, WFile.ientry, statMatches_self]
 
 end Dulwich.WorkTree
